@@ -54,6 +54,9 @@ Inductive target := TPos (p : nat) | TNull | TRaw (id : N).
 Inductive edit : Type :=
 | ELeafKey (p i : nat) (z : Z)          (* leaf p: keys[i].z := z *)
 | EBranchKey (p i : nat) (z : Z)        (* branch p: keys[i].z := z *)
+| ELeafKeyCopy (p i j : nat)             (* leaf p: keys[i].z := keys[j].z  (duplicate) *)
+| EBranchKeyCopy (p i j : nat)
+| ELeafLastKey (p : nat) (z : Z)         (* leaf p: last key's z := z *)
 | ELeafPopVal (p : nat)                  (* leaf p: values.pop() *)
 | ELeafPopKey (p : nat)                  (* leaf p: keys.pop() *)
 | ELeafPush (p : nat) (k : key) (v : V)  (* leaf p: push_key; push_value *)
@@ -82,6 +85,16 @@ Definition apply_edit (h : heap) (e : edit) : heap :=
   match e with
   | ELeafKey p i z => on_leaf h p (fun l => mkLeaf (lcap l) (set_kz i z (lkeys l)) (lvals l) (lnext l))
   | EBranchKey p i z => on_branch h p (fun b => mkBranch (bcap b) (set_kz i z (bkeys b)) (bkids b))
+  | ELeafKeyCopy p i j =>
+      on_leaf h p (fun l => match nth_error (lkeys l) j with
+                            | Some k => mkLeaf (lcap l) (set_kz i (kz k) (lkeys l)) (lvals l) (lnext l)
+                            | None => l end)
+  | EBranchKeyCopy p i j =>
+      on_branch h p (fun b => match nth_error (bkeys b) j with
+                              | Some k => mkBranch (bcap b) (set_kz i (kz k) (bkeys b)) (bkids b)
+                              | None => b end)
+  | ELeafLastKey p z =>
+      on_leaf h p (fun l => mkLeaf (lcap l) (set_kz (length (lkeys l) - 1) z (lkeys l)) (lvals l) (lnext l))
   | ELeafPopVal p => on_leaf h p (fun l => mkLeaf (lcap l) (lkeys l) (removelast (lvals l)) (lnext l))
   | ELeafPopKey p => on_leaf h p (fun l => mkLeaf (lcap l) (removelast (lkeys l)) (lvals l) (lnext l))
   | ELeafPush p k v => on_leaf h p (fun l => mkLeaf (lcap l) (lkeys l ++ [k]) (lvals l ++ [v]) (lnext l))
